@@ -774,6 +774,8 @@ impl<'a> GeneratorState<'a> {
                     self.asm(LDA, &ExprType::Immediate(0), pos, false)?;
                     self.label(&ifend_label)?;
                     self.asm(STA, &ExprType::Tmp(false), pos, false)?;
+                    // The value sits in the scratch byte: it is taken until the value is used
+                    self.tmp_in_use = true;
                     self.sasm(PLA)?;
                     self.acc_in_use = true;
                     Ok(ExprType::Tmp(false))
